@@ -1,6 +1,363 @@
-import HugrVerif.Ext
+/-
+  C10 — Extension definitions round-trip; the bundled standard library matches the spec.
+
+  Model: `HugrVerif/Ext.lean` (mirrors `hugr/ext.py`, `hugr/_serialization/extension.py`); lemmas:
+  `HugrVerif/Proofs/Ext.lean`.  Reading of the statement:
+
+  * The property quantifies over extensions **without lowering functions**: `OpDef.lower_funcs` is not
+    a field of the model (`encOpDef` always writes `[]`), so no `NoLowerings` hypothesis appears.
+  * Requirement lists that go through a Python `set` (`Extension.runtime_reqs`, the list
+    `with_runtime_reqs` rebuilds) are enumerated in hash order (ledger note F29).  Every theorem here
+    holds for **every** enumeration (`so : SetOrd`), and "the same requirements" / "the same
+    document" mean: the same members (`SetEq`), resp. `canonDoc j' = canonDoc j`, where `canonDoc`
+    sorts exactly the two set-typed lists of an extension document and nothing else.
+  * Types inside a signature come back with extension types in opaque form (`Ty.norm`, the type
+    layer's round trip, `Proofs/TysCodec.lean`); values are compared by their serialised form.
+    `ext_roundtrip` takes the value layer's own round trip as the hypothesis `ValRT` per value;
+    `value_roundtrip` proves `ValRT` for every serialisable value of the decodable shape (`ValOK`:
+    the `typ` of a general sum is a sum type, the type of an extension constant is not a type
+    scheme, the body of a function constant has a readable root signature), so that
+    `ext_roundtrip_closed` has structural hypotheses only.
+  * `WellFormed` is what the public API maintains (keys = names, ownership, `OpDefSig`'s invariant,
+    the extension among the requirements of every type scheme) plus serialisability within the fuel.
+
+  Translated part (regenerated from /repo by `harness/props/C10.py` on every run):
+  `Gen/StdExtFiles.lean` — every bundled and every specified file as a string literal, with the
+  theorems `bundled_eq_spec_<file>`, `same_file_set`, `bundled_eq_spec_all`; `Gen/StdDefs.lean` —
+  names and declared parameters of every definition of the bundled documents, used by
+  `helpers_match_defs`; `Gen/StdExtDocs.lean` — every bundled document as a JSON term with the
+  kernel-checked theorem `bundled_loads_<file>` that `decExt` accepts it and yields exactly its
+  `StdDefs` entry.  The generated theorems are re-stated below by `#restate_generated` so that the
+  audit lists every one of them.
+-/
+import Lean
+import HugrVerif.Proofs.Ext
 import HugrVerif.Gen.StdExtFiles
 import HugrVerif.Gen.StdDefs
+import HugrVerif.Gen.StdExtDocs
+
 namespace HugrVerif.Props.C10
-theorem stub : True := trivial
+open HugrVerif HugrVerif.Codec HugrVerif.Ext HugrVerif.Py
+
+abbrev FnSig := Json → Except DecErr (List Ty × List Ty × List String)
+
+/-! ### 1. Round trip -/
+
+/-- **Serialising an extension and loading it back** (`Extension.to_json` / `Extension.from_json`):
+    a well-formed extension serialises; the document loads; the loaded extension has the same name,
+    version, requirements (as a set), type definitions, operation definitions (signature, binary
+    flag, description, misc) and values (`ExtEq`), owns its operation definitions, and re-serialises
+    to the same document up to the order of the two set-typed requirement lists. -/
+theorem ext_roundtrip (so : SetOrd) (fnSig : FnSig) (fuel : Nat) (e : Extension) (h : WellFormed fnSig fuel e) :
+    ∃ j e', encExt e = .ok j ∧ decExt so fnSig fuel j = .ok e' ∧ ExtEq e e' ∧ OwnsOps e' ∧
+      ∃ j', encExt e' = .ok j' ∧ canonDoc j' = canonDoc j := by
+  obtain ⟨j, hj, hd⟩ := decExt_encExt so fnSig fuel e h
+  have heq := extEq_reload so fnSig fuel e h
+  exact ⟨j, _, hj, hd, heq, decExt_owns so fnSig fuel j _ hd, extEq_enc e _ heq j hj⟩
+
+/-- **The value layer's round trip**: a serialisable value of the decodable shape decodes from its
+    serialised form to a value with the same serialised form. -/
+theorem value_roundtrip (fnSig : FnSig) (fuel : Nat) (v : Value) (hok : ValOK fnSig v)
+    (henc : ∃ j, encVal v = .ok j) (hd : valDepth v ≤ fuel) :
+    ∃ j v', encVal v = .ok j ∧ decVal fnSig fuel j = .ok v' ∧ encVal v' = .ok j :=
+  valRT_of_ok fnSig fuel v hok henc hd
+
+/-- **Round trip with structural hypotheses only** (`WellFormedS`: as `WellFormed`, every value
+    serialisable, of the decodable shape and within the fuel). -/
+theorem ext_roundtrip_closed (so : SetOrd) (fnSig : FnSig) (fuel : Nat) (e : Extension) (h : WellFormedS fnSig fuel e) :
+    ∃ j e', encExt e = .ok j ∧ decExt so fnSig fuel j = .ok e' ∧ ExtEq e e' ∧ OwnsOps e' ∧
+      ∃ j', encExt e' = .ok j' ∧ canonDoc j' = canonDoc j :=
+  ext_roundtrip so fnSig fuel e h.wf
+
+/-- The loaded extension, explicitly: `reload` (the type schemes in decoded form with the owner
+    added to their requirements, the values as decoded). -/
+theorem ext_roundtrip_exact (so : SetOrd) (fnSig : FnSig) (fuel : Nat) (e : Extension) (h : WellFormed fnSig fuel e) :
+    ∃ j, encExt e = .ok j ∧ decExt so fnSig fuel j = .ok (reload so fnSig fuel e) :=
+  decExt_encExt so fnSig fuel e h
+
+/-- Extensions that are equal as far as the property claims serialise to the same document
+    (up to the set-typed lists): `ExtEq` loses nothing a document records. -/
+theorem extEq_same_document (e e' : Extension) (h : ExtEq e e') (j : Json) (hj : encExt e = .ok j) :
+    ∃ j', encExt e' = .ok j' ∧ canonDoc j' = canonDoc j :=
+  extEq_enc e e' h j hj
+
+/-- `canonDoc` only forgets order and repetition inside the two set-typed lists: on a list of
+    strings it keeps exactly the members. -/
+theorem canon_keeps_members (r : List String) : SetEq (sortDedup r) r := sortDedup_setEq r
+
+/-- and it is canonical: two lists with the same members are sorted to the same list -/
+theorem canon_set (a b : List String) (h : SetEq a b) : sortDedup a = sortDedup b := sortDedup_eq_of_setEq h
+
+/-! non-vacuity: a concrete extension with both kinds of type bound, a polymorphic and a
+    binary-computed signature, nested JSON in `misc`, non-ASCII text, a repeated requirement, a value -/
+
+/-- every body is read as a one-qubit identity (the document layer is not this property's) -/
+def exFn : FnSig := fun _ => .ok ([.qubit], [.qubit], [])
+
+def exIntDef : TypeDefRef :=
+  { ext := "arithmetic.int.types", name := "int", description := "", params := [.boundedNat (some 7)],
+    bound := .explicit .copyable }
+
+def exExt : Extension :=
+  { name := "my.ext", version := "1.2.3-rc.1+b7", runtimeReqs := ["prelude", "a", "prelude"],
+    types := [("T", ⟨some "my.ext", "T", "dé", [.type .any, .boundedNat (some 3)], .fromParams [0]⟩),
+              ("U", ⟨some "my.ext", "U", "", [], .explicit .copyable⟩)],
+    values := [("v", ⟨some "my.ext", "v", Value.boolValue true⟩),
+               ("c", ⟨some "my.ext", "c", .tuple [.ext "ConstInt" (.extType exIntDef [.boundedNat 5])
+                  (.obj [("log_width", .int 5), ("value", .int 7)]) ["arithmetic.int.types"], Value.none [.usize]]⟩),
+               ("f", ⟨some "my.ext", "f", .function [.qubit] [.qubit] [] (.obj [("nodes", .arr [])])⟩)],
+    operations := [
+      ("op", ⟨some "my.ext", "op",
+        ⟨some ⟨[.type .any], [.qubit, .extType exIntDef [.boundedNat 5]], [Ty.bool, .function [.usize] [] ["z", "y"]],
+          ["x", "my.ext"]⟩, false⟩,
+        "desc", [("k", .arr [.int 1, .num "2.5", .null, .obj [("z", .bool true)]])]⟩),
+      ("bin", ⟨some "my.ext", "bin", ⟨none, true⟩, "", []⟩)] }
+
+theorem exExt_wfS : WellFormedS exFn 10 exExt where
+  typeKeys := by unfold Dict.NodupKeys; decide
+  opKeys := by unfold Dict.NodupKeys; decide
+  valueKeys := by unfold Dict.NodupKeys; decide
+  types := by
+    intro kt hkt
+    simp only [exExt, List.mem_cons, List.mem_nil_iff, or_false] at hkt
+    rcases hkt with rfl | rfl <;> exact ⟨rfl, rfl, by decide⟩
+  ops := by
+    intro ko hko
+    simp only [exExt, List.mem_cons, List.mem_nil_iff, or_false] at hko
+    rcases hko with rfl | rfl
+    · refine ⟨rfl, rfl, by simp, ?_⟩
+      intro p hp
+      simp only [Option.some.injEq] at hp
+      subst hp
+      exact ⟨by decide, ⟨_, rfl⟩, by decide⟩
+    · refine ⟨rfl, rfl, fun _ => rfl, ?_⟩
+      intro p hp
+      simp at hp
+  values := by
+    intro kv hkv
+    simp only [exExt, List.mem_cons, List.mem_nil_iff, or_false] at hkv
+    rcases hkv with rfl | rfl | rfl
+    · exact ⟨rfl, rfl, by simp [ValOK, ValsOK, Value.boolValue, Value.unitSum, isSumTy], ⟨_, rfl⟩, by decide⟩
+    · exact ⟨rfl, rfl, by simp [ValOK, ValsOK, Value.none, Ty.option, isSumTy, Ty.isPoly], ⟨_, rfl⟩, by decide⟩
+    · exact ⟨rfl, rfl, ⟨_, rfl⟩, ⟨_, rfl⟩, by decide⟩
+
+theorem exExt_wf : WellFormed exFn 10 exExt := exExt_wfS.wf
+
+example : ∃ j e', encExt exExt = .ok j ∧ decExt SetOrd.std exFn 10 j = .ok e' ∧ ExtEq exExt e' ∧ OwnsOps e' ∧
+    ∃ j', encExt e' = .ok j' ∧ canonDoc j' = canonDoc j :=
+  ext_roundtrip SetOrd.std exFn 10 exExt exExt_wf
+
+example : ∃ j e', encExt exExt = .ok j ∧ decExt SetOrd.std exFn 10 j = .ok e' ∧ ExtEq exExt e' ∧ OwnsOps e' ∧
+    ∃ j', encExt e' = .ok j' ∧ canonDoc j' = canonDoc j :=
+  ext_roundtrip_closed SetOrd.std exFn 10 exExt exExt_wfS
+
+-- the reloaded extension is *not* literally the original one (the integer type is now opaque, the
+-- repeated requirement is gone): `ExtEq` is the right strength
+example : (reload SetOrd.std exFn 10 exExt).runtimeReqs = ["a", "prelude"] := by decide
+example : ((reload SetOrd.std exFn 10 exExt).operations.head?.bind (·.2.sig.poly)).map (·.inp) =
+    some [.qubit, .opaque "int" .copyable [.boundedNat 5] "arithmetic.int.types"] := by
+  simp [reload, exExt, reloadOp, normPoly, Poly.withReqs, Ty.normRow, Ty.norm, Ty.normArgs, Ty.normArg,
+    Ty.bound, exIntDef, pure, Except.pure]
+
+-- `canonDoc` is not the constant function: documents that differ elsewhere stay different, and the
+-- requirement lists of *nested* function types are not touched
+example : canonDoc (.obj [("runtime_reqs", .arr [.str "b", .str "a", .str "b"]), ("name", .str "x")]) =
+    .obj [("runtime_reqs", .arr [.str "a", .str "b"]), ("name", .str "x")] := by decide
+example : canonDoc (.obj [("runtime_reqs", .arr []), ("name", .str "x")]) ≠
+    canonDoc (.obj [("runtime_reqs", .arr []), ("name", .str "y")]) := by decide
+example : canonDoc (.obj [("operations", .obj [("o", .obj [("signature", .obj [("body", .obj [
+      ("input", .arr [.obj [("t", .str "G"), ("runtime_reqs", .arr [.str "z", .str "y"])]]),
+      ("runtime_reqs", .arr [.str "z", .str "y"])])])])])]) =
+    .obj [("operations", .obj [("o", .obj [("signature", .obj [("body", .obj [
+      ("input", .arr [.obj [("t", .str "G"), ("runtime_reqs", .arr [.str "z", .str "y"])]]),
+      ("runtime_reqs", .arr [.str "y", .str "z"])])])])])] := by decide
+
+/-! ### 2. Ownership of operation definitions -/
+
+/-- **`add_op_def`**: the definition returned (and stored under its name) reports the extension as
+    its owner and, when it has a type scheme, names the extension among the scheme's runtime
+    requirements; the binary flag is kept, and a binary-computed signature without type scheme is
+    stored unchanged. -/
+theorem opdef_owner_add (so : SetOrd) (e : Extension) (od : OpDef) :
+    Dict.get od.name (addOpDef so e od).1.operations = some (addOpDef so e od).2 ∧
+    (addOpDef so e od).2.owner = some e.name ∧
+    (∀ p, (addOpDef so e od).2.sig.poly = some p → e.name ∈ p.reqs) ∧
+    (addOpDef so e od).2.sig.binary = od.sig.binary ∧
+    (od.sig.poly = none → (addOpDef so e od).2.sig = od.sig) :=
+  ⟨addOpDef_get so e od, addOpDef_result so e od⟩
+
+/-- **Every operation definition held by an extension built with the public API**
+    (`Extension(...)`, `add_type_def`, `add_op_def`, `register_op`, `add_extension_value`)
+    reports that extension as its owner and names it among its signature's requirements. -/
+theorem opdef_owner (so : SetOrd) (e : Extension) (h : Reachable so e) :
+    ∀ ko ∈ e.operations, ko.2.owner = some e.name ∧ ∀ p, ko.2.sig.poly = some p → e.name ∈ p.reqs :=
+  h.owns
+
+/-- **… and so does every extension `from_json` / `_load_extension` returns**, whatever the document
+    (in particular the bundled files, whose signatures do not list the owning extension). -/
+theorem opdef_owner_loaded (so : SetOrd) (fnSig : FnSig) (fuel : Nat) (j : Json) (e : Extension)
+    (h : decExt so fnSig fuel j = .ok e) :
+    ∀ ko ∈ e.operations, ko.2.owner = some e.name ∧ ∀ p, ko.2.sig.poly = some p → e.name ∈ p.reqs :=
+  decExt_owns so fnSig fuel j e h
+
+/-- the invariant is kept by each API call separately -/
+theorem opdef_owner_preserved (so : SetOrd) (e : Extension) (h : OwnsOps e) :
+    (∀ od, OwnsOps (addOpDef so e od).1) ∧ (∀ td, OwnsOps (addTypeDef e td).1) ∧
+    (∀ v, OwnsOps (addExtensionValue e v).1) ∧
+    (∀ c d n s ds m, OwnsOps (registerOp so e c d n s ds m).1) :=
+  ⟨fun od => addOpDef_owns so e od h, fun td => addTypeDef_owns e td h, fun v => addExtensionValue_owns e v h,
+   fun c d n s ds m => registerOp_owns so e c d n s ds m h⟩
+
+-- non-vacuity: an extension built through the API, with a definition registered by `register_op`
+def exBuilt : Extension :=
+  let e0 := Extension.new "logic" "0.1.0" []
+  let e1 := (addOpDef SetOrd.std e0 ⟨none, "Not", ⟨some ⟨[], [Ty.bool], [Ty.bool], []⟩, false⟩, "logical not", []⟩).1
+  let e2 := (registerOp SetOrd.std e1 "_AndOp" (some "Logical AND.") none (.inl none) none none).1
+  (addTypeDef e2 ⟨none, "T", "", [], .explicit .any⟩).1
+
+theorem exBuilt_reachable : Reachable SetOrd.std exBuilt :=
+  .addType _ (.register _ _ _ _ _ _ (.addOp _ (.new _ _ _)))
+
+example : ∀ ko ∈ exBuilt.operations, ko.2.owner = some "logic" ∧ ∀ p, ko.2.sig.poly = some p → "logic" ∈ p.reqs :=
+  opdef_owner SetOrd.std exBuilt exBuilt_reachable
+example : exBuilt.operations.map (fun ko => (ko.1, ko.2.owner, ko.2.sig.poly.map (·.reqs), ko.2.sig.binary, ko.2.description)) =
+    [("Not", some "logic", some ["logic"], false, "logical not"), ("_AndOp", some "logic", none, true, "Logical AND.")] := by
+  decide
+-- a document whose signature does not list the owner (as in the bundled files): loading adds it
+example : (decExt SetOrd.std exFn 10 (.obj [("version", .str "0.1.0"), ("name", .str "logic"), ("runtime_reqs", .arr []),
+      ("types", .obj []), ("values", .obj []),
+      ("operations", .obj [("Not", .obj [("extension", .str "logic"), ("name", .str "Not"), ("description", .str ""),
+        ("signature", .obj [("params", .arr []), ("body", .obj [("input", .arr []), ("output", .arr [])])]),
+        ("binary", .bool false)])])])).toOption.map
+      (fun e => e.operations.map fun ko => (ko.2.owner, ko.2.sig.poly.map (·.reqs), ko.2.misc.length)) =
+    some [(some "logic", some ["logic"], 0)] := by decide
+-- `OpDefSig(None, binary=False)` is rejected on load, a key that is not the name too
+example : decExt SetOrd.std exFn 10 (.obj [("version", .str "0.1.0"), ("name", .str "x"), ("runtime_reqs", .arr []),
+      ("types", .obj []), ("values", .obj []),
+      ("operations", .obj [("o", .obj [("extension", .str "x"), ("name", .str "o"), ("description", .str "")])])]) =
+.error .valueError := by rfl
+example : decExt SetOrd.std exFn 10 (.obj [("version", .str "0.1.0"), ("name", .str "x"), ("runtime_reqs", .arr []),
+      ("types", .obj []), ("values", .obj []),
+      ("operations", .obj [("k", .obj [("extension", .str "x"), ("name", .str "o"), ("description", .str ""),
+        ("binary", .bool true)])])]) = .error .assertion := by rfl
+
+/-! ### 3. The typed helpers of `hugr.std` denote bundled definitions with matching parameters
+
+  `Gen.StdDefs.table` is regenerated from `hugr-py/src/hugr/std/_json_defs` on every run.
+  `HelperUse.matches` = the definition exists in the named extension document and the arguments the
+  helper builds fit its declared parameters (`argsFit`, after `check_type_args` /
+  `check_type_arg`, hugr-core/src/types/type_param.rs:407-469). -/
+
+open HugrVerif.Gen.StdDefs in
+/-- **`int_t(w)` for w = 0..6, `FLOAT_T`, `STRING_T`, `Array(ty, n)`, `List(ty)`, `StaticArray(ty)`
+    (for the copyable element types its constructor accepts), `DivMod` at every width 0..6 and `Not`**
+    — and hence the constants `IntVal`, `FloatVal`, `StringVal`, `ArrayVal`, `ListVal`,
+    `StaticArrayVal`, whose reported type is built by the same helper — denote definitions of the
+    regenerated extension documents, with arguments that fit the declared parameters. -/
+theorem helpers_match_defs :
+    (∀ w : Int, 0 ≤ w → w ≤ 6 → (intT w).matches table = true) ∧
+    floatT.matches table = true ∧
+    stringT.matches table = true ∧
+    (∀ (ty : Ty) (n : Int), 0 ≤ n → (arrayT ty n).matches table = true) ∧
+    (∀ ty : Ty, (listT ty).matches table = true) ∧
+    (∀ ty : Ty, Ty.bound ty = .ok .copyable → (staticArrayT ty).matches table = true) ∧
+    (∀ w : Int, 0 ≤ w → w ≤ 6 → (divMod w).matches table = true) ∧
+    notOp.matches table = true := by
+  refine ⟨?_, by decide, by decide, ?_, ?_, ?_, ?_, by decide⟩
+  · intro w h0 h6
+    have : (intT w).params? table = some [.boundedNat (some 7)] := by rfl
+    unfold HelperUse.matches; rw [this]
+    simp [intT, argsFit, zipFit, argFits, validNat]
+    omega
+  · intro ty n h0
+    have : (arrayT ty n).params? table = some [.boundedNat none, .type .any] := by rfl
+    unfold HelperUse.matches; rw [this]
+    cases h : Ty.bound ty <;> simp [arrayT, argsFit, zipFit, argFits, validNat, boundContains, h0, h]
+  · intro ty
+    have : (listT ty).params? table = some [.type .any] := by rfl
+    unfold HelperUse.matches; rw [this]
+    cases h : Ty.bound ty <;> simp [listT, argsFit, zipFit, argFits, boundContains, h]
+  · intro ty h
+    have : (staticArrayT ty).params? table = some [.type .copyable] := by rfl
+    unfold HelperUse.matches; rw [this]
+    simp [staticArrayT, argsFit, zipFit, argFits, boundContains, h]
+  · intro w h0 h6
+    have : (divMod w).params? table = some [.boundedNat (some 7)] := by rfl
+    unfold HelperUse.matches; rw [this]
+    simp [divMod, argsFit, zipFit, argFits, validNat]
+    omega
+
+open HugrVerif.Gen.StdDefs in
+/-- the width bound is sharp: `int_t(7)` does not fit `BoundedNat(7)`; a non-copyable element does
+    not fit `static_array`'s parameter; a helper naming a definition that does not exist fails -/
+theorem helpers_match_defs_sharp :
+    (intT 7).matches table = false ∧ (intT (-1)).matches table = false ∧
+    (staticArrayT .qubit).matches table = false ∧
+    (⟨"arithmetic.int.types", false, "integer", [.boundedNat 5]⟩ : HelperUse).matches table = false ∧
+    (⟨"logic", true, "Not", [.boundedNat 5]⟩ : HelperUse).matches table = false := by
+  decide
+
+-- `argFits` follows `check_type_arg`: examples from its unit test (type_param.rs:506-560)
+example : argFits (.type .usize) (.type .copyable) = true := by decide
+example : argFits (.type .usize) (.list (.type .copyable)) = false := by decide
+example : argFits (.sequence [.type .usize]) (.type .any) = false := by decide
+example : argFits (.variable 0 (.list (.type .copyable))) (.list (.type .copyable)) = true := by decide
+example : argFits (.sequence []) (.list (.type .copyable)) = true := by decide
+example : argFits (.sequence [.variable 0 (.list (.type .copyable))]) (.list (.type .copyable)) = true := by decide
+example : argFits (.sequence [.variable 1 (.list (.type .any)), .type .usize, .variable 0 (.list (.type .copyable))])
+    (.list (.type .any)) = true := by decide
+example : argFits (.sequence [.variable 1 (.list (.type .any))]) (.list (.type .copyable)) = false := by decide
+example : argFits (.sequence [.type .usize, .boundedNat 3]) (.tuple [.type .copyable, .boundedNat none]) = true := by decide
+example : argFits (.sequence [.type .usize]) (.tuple [.type .copyable, .boundedNat none]) = false := by decide
+example : argFits (.type .qubit) (.type .copyable) = false := by decide
+
+/-! ### 4. The bundled files are the specified files (translated, re-checked on every run) -/
+
+open Lean Elab Command in
+/-- For every theorem `HugrVerif.Props.C10.gen.<x>` of the imported generated module declare
+    `HugrVerif.Props.C10.generated.<x>` with the same statement, proved by it. -/
+elab "#restate_generated" : command => do
+  let env ← getEnv
+  let pre := `HugrVerif.Props.C10.gen
+  let mut todo : Array (Name × TheoremVal) := #[]
+  for (n, ci) in env.constants.map₁.toList do
+    if pre.isPrefixOf n && !n.isInternal then
+      if let .thmInfo ti := ci then
+        if let some idx := env.getModuleIdxFor? n then
+          let modName := env.header.moduleNames[idx.toNat]!
+          if (`HugrVerif.Gen).isPrefixOf modName then todo := todo.push (n, ti)
+  for (n, ti) in todo.qsort (fun a b => a.1.toString < b.1.toString) do
+    let newName := (`HugrVerif.Props.C10.generated) ++ n.replacePrefix pre .anonymous
+    liftCoreM <| addDecl <| .thmDecl {
+      name := newName, levelParams := ti.levelParams, type := ti.type,
+      value := mkConst n (ti.levelParams.map mkLevelParam) }
+
+#restate_generated
+
+open HugrVerif.Gen.StdExtFiles in
+/-- **Every file bundled with the Python package is, character for character, the file of the same
+    name under specification/std_extensions, and the two directories hold the same files.** -/
+theorem bundled_is_spec : bundledNames = specNames ∧ bundled = spec ∧
+    (∀ nc, nc ∈ bundled → nc ∈ spec) :=
+  ⟨gen.same_file_set, gen.bundled_eq_spec_all, fun _ h => gen.bundled_eq_spec_all ▸ h⟩
+
+open HugrVerif.Gen in
+/-- **Each bundled document loads** (`_load_extension`): the loaded extension owns its operation
+    definitions and holds exactly the definitions — names and declared parameters — that
+    `StdDefs.table` lists under its name (the table `helpers_match_defs` is about). -/
+theorem bundled_load (nd : String × Json) (h : nd ∈ StdExtDocs.docs) :
+    ∃ e, decExt SetOrd.std noFnSig 64 nd.2 = .ok e ∧ findExt StdDefs.table e.name = some (sigOfExt e) ∧
+      ∀ ko ∈ e.operations, ko.2.owner = some e.name ∧ ∀ p, ko.2.sig.poly = some p → e.name ∈ p.reqs := by
+  have := List.all_eq_true.1 gen.bundled_loads_all nd h
+  exact loadsFrom_sound StdDefs.table 64 nd.2 this
+
+open HugrVerif.Gen in
+/-- the documents translated are the bundled files, one per file name -/
+theorem bundled_docs_names : StdExtDocs.docs.map (·.1) = StdExtFiles.bundledNames := by decide
+
+open HugrVerif.Gen.StdExtFiles in
+/-- the tables are not empty and list every name (so the theorem above says something) -/
+theorem bundled_nonempty : bundled.map (·.1) = bundledNames ∧ spec.map (·.1) = specNames ∧ bundledNames ≠ [] := by
+  refine ⟨by decide, by decide, by decide⟩
+
 end HugrVerif.Props.C10
